@@ -472,14 +472,17 @@ class Differential:
     """impl (one or more builds) vs extracted model vs executable spec, on integer-coded cases."""
 
     def __init__(self, run, bins, model_entry, spec_entry, oracle=None, known=None, nontrivial=None,
-                 harness_head=None, isolated=False, describe=None, max_reports=3, applicable=None):
+                 harness_head=None, isolated=False, describe=None, max_reports=3, applicable=None, check_entry=None):
         self.run = run; self.bins = bins
         self.model_entry = model_entry; self.spec_entry = spec_entry
+        if oracle is None and check_entry is not None:
+            oracle = lambda case, impl, spec: None if spec == "checker:1" else f"proved checker rejected impl output {impl!r}: {spec}"
         self.oracle = oracle or (lambda case, impl, spec: None if impl == spec else f"impl={impl!r} spec={spec!r}")
         self.known = known or (lambda case, impl, model, spec: None)
         self.nontrivial = nontrivial or (lambda case: len(case.ops) >= 2)
         self.harness_head = harness_head or (lambda case: case.fam)
         self.isolated = isolated
+        self.check_entry = check_entry   # checker-style oracle: entry(case ints ++ impl output ints) must return 1
         self.applicable = applicable or (lambda case, build: True)
         self.describe = describe or (lambda case: case.to_json())
         self.max_reports = max_reports
@@ -503,10 +506,22 @@ class Differential:
         dl = []
         for c in cases:
             dl.append(c.line(self.model_entry(c)))
-            se = self.spec_entry(c)
+            se = self.spec_entry(c) if self.spec_entry else None
             dl.append(c.line(se) if se else "")
         dout = driver_eval(dl)
-        model = dout[0::2]; spec = dout[1::2]
+        model = dout[0::2]; spec1 = dout[1::2]
+        spec = {}
+        for b in self.bins:
+            if self.check_entry:
+                cl = []
+                for i, c in enumerate(cases):
+                    il = impl[b][i]
+                    ok = bool(il) and all(t.lstrip("-").isdigit() for t in il.split())
+                    cl.append(f"{self.check_entry(c)} {len(il.split())} " + fmt(c.ints()) + " " + il if ok else "")
+                co = driver_eval(cl)
+                spec[b] = ["checker:" + (co[i] if cl[i] else "unparsable-impl-output") for i in range(len(cases))]
+            else:
+                spec[b] = spec1
         return impl, model, spec
 
     def judge(self, case, impl_line, model_line, spec_line):
@@ -532,7 +547,7 @@ class Differential:
                 if not self.applicable(c, b):
                     continue
                 il = impl[b][i]
-                corr_ok, of, kn = self.judge(c, il, model[i], spec[i])
+                corr_ok, of, kn = self.judge(c, il, model[i], spec[b][i])
                 if corr_ok and of is None:
                     continue
                 run.cov["disagreements_checked"] += 1
@@ -554,7 +569,7 @@ class Differential:
             res = []
             for i, c in enumerate(cands):
                 il = impl[build][i]
-                corr_ok, of, kn = self.judge(c, il, model[i], spec[i])
+                corr_ok, of, kn = self.judge(c, il, model[i], spec[b][i])
                 res.append(of is not None and kn is None)
             return res
         small = ddmin(case, lambda cs: [r for r in fails_only(self, cs, build)])
@@ -563,8 +578,8 @@ class Differential:
             "kind": "property-oracle-failed-on-implementation",
             "build": build, "case": self.describe(small), "original_case_ops": len(case.ops),
             "harness_line": small.line(self.harness_head(small)),
-            "implementation_output": impl[build][0], "model_output": model[0], "spec_expected": spec[0],
-            "why": self.oracle(small, impl[build][0], spec[0]),
+            "implementation_output": impl[build][0], "model_output": model[0], "spec_expected": spec[build][0],
+            "why": self.oracle(small, impl[build][0], spec[build][0]),
             "rerun": f"cd /verif && python3 bin/check.py {run.prop} --replay <this file>",
         })
 
@@ -584,7 +599,7 @@ class Differential:
                 "correspondence": f"{self.model_entry(small)} vs harness family {small.fam} (build {b})",
                 "first_differing_case": self.describe(small),
                 "harness_line": small.line(self.harness_head(small)),
-                "implementation_output": impl[b][0], "model_output": model[0], "spec_expected": spec[0],
+                "implementation_output": impl[b][0], "model_output": model[0], "spec_expected": spec[b][0],
                 "differing_cases_total": len(self.corr_only),
             }, name=f"corr-{run.tier}.json", no_input=True)
         return self.real > 0
@@ -595,7 +610,7 @@ def fails_only(diff, cands, build):
     res = []
     for i, c in enumerate(cands):
         il = impl[build][i]
-        corr_ok, of, kn = diff.judge(c, il, model[i], spec[i])
+        corr_ok, of, kn = diff.judge(c, il, model[i], spec[build][i])
         res.append(of is not None and not (kn is not None and listed_open(diff.run.prop, kn[0])))
     return res
 
@@ -609,3 +624,23 @@ def fatal(run, what, detail):
     run.violation({"kind": "check-could-not-run", "what": what, "detail": detail[-3000:]},
                   name=f"infra-{run.tier}.json", no_input=True)
     run.finish()
+
+
+def generic_replay(diff, path):
+    d = json.load(open(path))
+    cj = d.get("case") or d.get("first_differing_case")
+    if cj is None:
+        print("replay file names a proof obligation / infrastructure failure, not an input:", d.get("kind")); print(json.dumps(d, indent=1)[:3000])
+        return 1
+    case = Case.from_json(cj)
+    impl, model, spec = diff.eval_cases([case])
+    bad = False
+    for b in diff.bins:
+        if not diff.applicable(case, b):
+            continue
+        of = diff.oracle(case, impl[b][0], spec[b][0])
+        print(f"[{b}] impl : {impl[b][0]}\n[{b}] spec : {spec[b][0]}\n[{b}] oracle: {'FAIL ' + str(of) if of else 'ok'}; correspondence: {'ok' if impl[b][0] == model[0] else 'DIFFERS'}")
+        bad = bad or of is not None or impl[b][0] != model[0]
+    print("model:", model[0])
+    print("REPRODUCED" if bad else "not reproduced")
+    return 1 if bad else 0
